@@ -357,6 +357,14 @@ def concretise_atoms(sb):
 
 def slice_(sb, a, b, ctx):
     """sb[a:b]; caller guarantees 0 <= a <= b <= len (checked by caller where Rust checks)."""
+    # fast path: one homogeneous segment -- the slice is a sub-segment, no case analysis needed
+    if len(sb.segs) == 1 and isinstance(sb.segs[0], (BlobSeg, Fill, Junk)):
+        s0 = sb.segs[0]
+        if _same_term(a, b):
+            return SBytes()
+        return SBytes((_subseg(s0, a, b, seg_len(s0)),))
+    if len(sb.segs) == 0:
+        return SBytes()
     out = []
     pos = 0  # int or BV
     segs = list(sb.segs)
@@ -480,6 +488,16 @@ def canon(c, ctx):
         elif isinstance(s, Fill) and is_sym(s.n) and ctx.known(s.n == 0):
             continue
         out.append(s)
+    # normalise bounds that provably coincide with the blob's own bounds
+    for i, s in enumerate(out):
+        if isinstance(s, BlobSeg):
+            a, b = s.a, s.b
+            if is_sym(a) and ctx.known(_bv(a) == 0):
+                a = 0
+            if not _same_term(b, s.blob.len) and (is_sym(b) or is_sym(s.blob.len)) and ctx.known(_bv(b) == _bv(s.blob.len)):
+                b = s.blob.len
+            if a is not s.a or b is not s.b:
+                out[i] = BlobSeg(s.blob, a, b)
     return SBytes(out)
 
 
@@ -492,11 +510,26 @@ def content_eq(c1, c2, ctx):
     c1, c2 = canon(c1, ctx), canon(c2, ctx)
     if c1.key() == c2.key():
         return True
+    r = _content_eq_inner(c1, c2, ctx)
+    if r is True or r is False:
+        return r
+    # equal byte strings have equal lengths
+    l1, l2 = c1.length(), c2.length()
+    if is_sym(l1) or is_sym(l2):
+        return z3.And(_bv(l1) == _bv(l2), r)
+    return r
+
+
+def _content_eq_inner(c1, c2, ctx):
     if c1.is_concrete() and c2.is_concrete():
         return c1.concrete() == c2.concrete()
     l1, l2 = c1.length(), c2.length()
     if not is_sym(l1) and not is_sym(l2) and l1 != l2:
         return False
+    if not c1.segs:
+        return _bv(l2) == 0
+    if not c2.segs:
+        return _bv(l1) == 0
     # whole-blob versus whole-blob
     if len(c1.segs) == 1 and len(c2.segs) == 1 and isinstance(c1.segs[0], BlobSeg) and isinstance(c2.segs[0], BlobSeg):
         s1, s2 = c1.segs[0], c2.segs[0]
@@ -551,7 +584,8 @@ def content_eq(c1, c2, ctx):
     if e is not None:
         return e
     # otherwise unknown: a fresh uninterpreted Boolean (never claims either way)
-    k = ("eq", c1.key(), c2.key())
+    ks = sorted([repr(c1.key()), repr(c2.key())])
+    k = ("eq", ks[0], ks[1])
     if k not in _same_vars:
         _same_vars[k] = z3.Bool("eq_%d" % len(_same_vars))
     return _same_vars[k]
